@@ -101,3 +101,19 @@ double vt_sqrt(double x)
 #else
 double vt_sqrt(double x) { return sqrt(x); }
 #endif
+
+#if defined(__CPROVER__) && defined(VT_BOUNDED_MEMMOVE)
+/* bounded word-wise memmove (at most 8 32-bit words; larger or unaligned sizes are a reported bound failure) */
+void *vt_bounded_memmove(void *d, const void *s, unsigned long n)
+{
+    if (n > 32 || (n & 3) != 0) { __CPROVER_assert(0, "bounded memmove: size within the model (<= 8 words)"); __CPROVER_assume(0); }
+    uint32_t *dd = (uint32_t *)d; const uint32_t *ss = (const uint32_t *)s; unsigned long k = n >> 2;
+    if (dd < ss) { for (unsigned i = 0; i < 8; ++i) if (i < k) dd[i] = ss[i]; }
+    else { for (unsigned i = 8; i-- > 0;) if (i < k) dd[i] = ss[i]; }
+    return d;
+}
+#endif
+
+/* out-of-line std::string members that -fno-inline modules call instead of inlining (layout: data pointer, length, 16-byte local buffer) */
+uint8_t *_ZNKSt7__cxx1112basic_stringIcSt11char_traitsIcESaIcEE5c_strEv(uint8_t **s) { return *s; }
+void _ZNSt7__cxx1112basic_stringIcSt11char_traitsIcESaIcEEC2Ev(uint8_t **s) { s[0] = (uint8_t *)(s + 2); s[1] = 0; *(uint8_t *)(s + 2) = 0; }
